@@ -603,8 +603,8 @@ struct ttx_page_stat {
 	/* Cache statistics. */
 
 	/** Subpages cached now and ever. */
-	uint8_t				n_subpages;
-	uint8_t				max_subpages;
+	uint16_t			n_subpages;
+	uint16_t			max_subpages;
 
 	/**
 	 * Subpage numbers actually received (0x00 ... 0x79,
